@@ -178,7 +178,9 @@ def run(ctx) -> Result:
     n = 150 if not ctx.thorough else 2500
     for i in range(n):
         cfg = pipecheck.CONFIGS[i % len(pipecheck.CONFIGS)]
-        if i % 7 == 3:
+        if i % 7 == 5:
+            hist = pipe.gen_history_arrivals(rng, n=rng.randint(1, 3))     # arrive with content, renamed before anybody looked
+        elif i % 7 == 3:
             hist = pipe.gen_history_renames(rng, n_renames=rng.randint(2, 5))     # take-overs, ancestor renames, out and back
         elif i % 2:
             hist = pipe.gen_history_leaving(rng, n_ops=rng.randint(5, 12))
